@@ -179,7 +179,7 @@ inline bool wifi_dump(const PDU& p, std::string& out) {
         case PDU::RC4EAPOL: {
             const RC4EAPOL& e = static_cast<const RC4EAPOL&>(p);
             f.num("version", e.version()).num("packet_type", e.packet_type()).num("~length", e.length()).num("type", e.type())
-             .num("key_length", e.key_length()).num("replay_counter", e.replay_counter())
+             .num("~key_length", e.key_length()).num("replay_counter", e.replay_counter())
              .hex("key_iv", e.key_iv(), RC4EAPOL::key_iv_size).num("key_flag", e.key_flag()).num("key_index", e.key_index())
              .hex("key_sign", e.key_sign(), RC4EAPOL::key_sign_size).str("key", vh::to_hex(e.key()));
             break;
@@ -193,7 +193,7 @@ inline bool wifi_dump(const PDU& p, std::string& out) {
              .num("key_length", e.key_length()).num("replay_counter", e.replay_counter())
              .hex("nonce", e.nonce(), RSNEAPOL::nonce_size).hex("key_iv", e.key_iv(), RSNEAPOL::key_iv_size)
              .hex("rsc", e.rsc(), RSNEAPOL::rsc_size).hex("id", e.id(), RSNEAPOL::id_size).hex("mic", e.mic(), RSNEAPOL::mic_size)
-             .num("wpa_length", e.wpa_length()).str("key", vh::to_hex(e.key()));
+             .num("~wpa_length", e.wpa_length()).str("key", vh::to_hex(e.key()));
             break;
         }
         case PDU::RADIOTAP: {
